@@ -159,3 +159,16 @@ Proof.
   destruct (acr_shorter (acr_fuel toks)) as [S _]. destruct (S _ _ _ _ _ E) as [_ H]. specialize (H eq_refl).
   rewrite (acr_run_any n (Datatypes.S (length t1)) t1 s1) by lia. reflexivity.
 Qed.
+
+(* reading with Next until ValNone always terminates within the rounds given *)
+Lemma acr_run_total : forall k toks st, (length toks <= k)%nat -> acr_run (S (length toks)) toks st <> None.
+Proof.
+  induction k as [|k IH]; intros toks st Hk.
+  - destruct toks; [|cbn in Hk; lia]. cbn. discriminate.
+  - rewrite acr_run_eq by lia.
+    destruct (NEXT toks st) as [[[b t1] s1]|] eqn:E.
+    + destruct b; [|discriminate].
+      destruct (acr_shorter (acr_fuel toks)) as [S _]. destruct (S _ _ _ _ _ E) as [_ H]. specialize (H eq_refl).
+      specialize (IH t1 s1 ltac:(lia)). destruct (acr_run (Datatypes.S (length t1)) t1 s1) as [[out fin]|]; [discriminate|congruence].
+    + exfalso. revert E. unfold NEXT. apply (proj1 (acr_enough _)). unfold acr_fuel. lia.
+Qed.
